@@ -174,6 +174,15 @@ func (e *Exec) noteLoaded(st *State, t *Term, typ types.Type, path string) {
 		}
 		return
 	}
+	if _, isInterior := interiorElem(typ); isInterior {
+		a := mkApp("ptr!arr", SInt, t)
+		if t.Op == "app" && t.Name == "ptr!mk" {
+			a = t.Args[0]
+		}
+		st.assume(mkGe(a, tZero))
+		st.assume(mkLe(a, st.ghostVar(allocGhost, SInt)))
+		return
+	}
 	switch reprOf(typ) {
 	case rInt:
 		st.assume(inRangeTerm(t, typ))
@@ -294,6 +303,10 @@ func (e *Exec) assumeWellTyped(st *State, v Value) {
 	case ArrayVal:
 		e.knownRef(st, x.Arr)
 		st.assume(mkGt(x.Arr, tZero))
+	case PtrVal:
+		if ml, ok := x.Loc.(*MemLoc); ok {
+			e.knownRef(st, ml.Arr)
+		}
 	}
 }
 
